@@ -372,6 +372,10 @@ pub fn scenarios(thorough: bool) -> Vec<Scenario> {
                    conc: vec![COp::Add { user: 1, loc: 2, blob: enc(2, 0), tsd: 10 }, COp::Conn(vec![])], after: vec![] },
         Scenario { name: "add-vs-purging-block", cfg: (3, 1, 0), height: 100, setup: vec![COp::Reg(1)], send: node_ok.0.clone(), get: node_ok.1.clone(),
                    conc: vec![COp::Add { user: 1, loc: 1, blob: enc(1, 0), tsd: 10 }, COp::Conn(vec![])], after: vec![] },
+        // a renewal racing with the block that purges the user: whichever comes first, the user exists afterwards
+        // (renewed and kept, or purged and registered anew)
+        Scenario { name: "register-vs-purging-block", cfg: (3, 1, 0), height: 100, setup: vec![COp::Reg(1)], send: node_ok.0.clone(), get: node_ok.1.clone(),
+                   conc: vec![COp::Reg(1), COp::Conn(vec![])], after: vec![] },
         Scenario { name: "get-vs-block-with-dispute", cfg: (3, 50, 2), height: 100,
                    setup: vec![COp::Reg(1), COp::Add { user: 1, loc: 1, blob: enc(1, 0), tsd: 10 }], send: node_ok.0.clone(), get: node_ok.1.clone(),
                    conc: vec![COp::Get { user: 1, loc: 1 }, COp::Conn(vec![1])], after: vec![] },
